@@ -53,10 +53,11 @@ def offending_sites():
         "import Cog.Det.Review\nopen Cog Cog.Det\n"
         "#eval IO.println (String.intercalate \"\\n\" (offending.map (fun s => s!\"SITE {s.file}:{s.func} line={s.line} kind={repr s.kind} effects={repr s.effects} unreviewed_callees={s.callees.filter (fun c => !calleeOK c)} ptrKey={s.ptrKey}\")))\n"
         "#eval IO.println (String.intercalate \"\\n\" (offendingImpure.map (fun f => s!\"IMPURE {f.file}:{f.func} {f.what}\")))\n"
+        "#eval IO.println (String.intercalate \"\\n\" ((Gen.mapRangeSites.filter (fun s => s.known && !s.outsideRun)).map (fun s => s!\"KNOWN-SITE {s.file}:{s.func}\")))\n"
         "#eval IO.println s!\"KNOWN-PRESENT {(Gen.mapRangeSites.filter (fun s => s.known && !s.outsideRun)).length} of {knownNondeterministic.length}\"\n")
     if rc != 0:
         return None, text[-2500:]
-    return [l for l in text.split("\n") if l.startswith(("SITE ", "IMPURE ", "KNOWN-PRESENT "))], ""
+    return [l for l in text.split("\n") if l.startswith(("SITE ", "IMPURE ", "KNOWN-PRESENT ", "KNOWN-SITE "))], ""
 
 
 def my_lean_obligations(c):
@@ -89,8 +90,12 @@ def parse_reply(reply):
 class Dyn:
     """runs recipes on the real code and classifies the rows"""
 
-    def __init__(self, c, hb):
+    def __init__(self, c, hb, known_present):
         self.c, self.hb = c, hb
+        # sites the regenerated table currently classifies as listed-known: only there may a
+        # known finding explain nondeterminism (a site that was repaired and regresses, or a
+        # recipe that fails somewhere else, is a violation)
+        self.known_present = known_present
         self.rows = []
         self.known_expected = {}   # site -> observed nondeterminism?
         self.broken = []
@@ -117,7 +122,7 @@ class Dyn:
             if failed:
                 c.cov["oracle_failures"] += 1
                 case = r[0] + "\t" + r[2]
-                kf = c.match_known(case)
+                kf = c.match_known(case) if site in self.known_present else None
                 if kf is None and name not in self.reported and len(self.reported) < 6:
                     self.reported.add(name)
                     c.violation({"kind": "nondeterministic-output", "stream": stream, "args": args, "recipe": name,
@@ -141,7 +146,26 @@ class Dyn:
         return rows
 
 
-UNIT_KNOWN = {"infer-mapping", "consolidate", "fields-set-default", "compose-builders"}
+def across_processes(dyn, recipe, mode, procs):
+    """the same recipe in `procs` fresh processes (one run each): digests must agree across
+    processes too (in-process repetition alone could be fooled by process-global state)"""
+    c = dyn.c
+    digests = {}
+    row0 = None
+    for _ in range(procs):
+        rows = harness(dyn.hb, "c03-pipeline", cfg=recipe["cfg"], mode=mode, n=1, name="%s:%s:proc" % (recipe["name"], mode), site=recipe["site"])
+        row0 = row0 or rows[0]
+        d = parse_reply(rows[0][1]).get("digests", "?")
+        digests[d] = digests.get(d, 0) + 1
+    reply = "distinct=%d counts=%s digests=%s entries=%s processes=%d" % (
+        len(digests), ",".join(str(v) for v in digests.values()), ",".join(digests), parse_reply(row0[1]).get("entries", "0"), procs)
+    verdict = "ok" if len(digests) == 1 else "FAIL nondeterministic digests differ between fresh processes"
+    req = row0[0].replace(" n=1", " n=%d" % procs)
+    dyn.handle("c03-pipeline", {"cfg": recipe["cfg"], "mode": mode, "n": 40, "name": recipe["name"] + ":" + mode, "site": recipe["site"], "pipeline": recipe["name"]},
+               [[req, reply, verdict]], recipe["expect"])
+
+
+UNIT_KNOWN = {"infer-mapping", "fields-set-default", "compose-builders"}
 
 
 def main():
@@ -157,7 +181,7 @@ def main():
         "the observable excludes the text of error messages and progress output (N_error_value shows why)",
         "dynamic recipes sample iteration orders (Go randomises per range); a site whose map never holds two entries in any recipe is validated by the proof only",
     ]
-    hb, err = build_go("verifharness", "harness")
+    hb, err = gen_c03.build_harness()
     c.oblige("harness builds against /repo working tree", hb is not None, err)
     if c.replay:
         if hb is None:
@@ -212,20 +236,22 @@ def main():
     broke = bool(c.failed_obligations())
     thorough = c.tier == "thorough"
     boost = 3 if broke else 1
-    dyn = Dyn(c, hb)
-    n_unit = (400 if thorough else 80) * boost
+    dyn = Dyn(c, hb, {l[len("KNOWN-SITE "):].strip() for l in off if l.startswith("KNOWN-SITE ")})
+    n_unit = (1000 if thorough else 80) * boost
     for k in ((2, 3, 4, 6) if thorough else (2, 4)):
         dyn.unit(n_unit, k)
     recipes = gen_c03.write_pipelines(PIPES, k=5 if thorough else 3)
     for r in recipes:
         for mode in r["modes"]:
             if r["expect"] == "known":
-                n = 200 if thorough else 60
+                n = 300 if thorough else 60
             elif r["name"] == "clean" and mode == "files":
                 n = (300 if thorough else 40) * boost
             else:
                 n = (200 if thorough else 30) * boost
             dyn.pipeline(r, mode, n)
+        if r["expect"] == "deterministic" and "files" in r["modes"]:
+            across_processes(dyn, r, "files", 12 if thorough else 3)
     c.cov["recipes_run"] = len(dyn.rows)
     c.cov["repetitions_total"] = c.cov["evaluations"]
     c.cov["known_sites_observed_nondeterministic"] = {k: v for k, v in sorted(dyn.known_expected.items())}
